@@ -142,7 +142,7 @@ def C03(c):
     c.corr("random-fit", C.random_pack_cases(rng, C.PACKERS, c.n(150, 2000)), combos_of(formats, ots), judge=judge)
     c.corr("random-bc", C.random_pack_cases(rng, ["bin_completion"], c.n(300, 4000), nmax=c.n(10, 12)),
            combos_of(["list", "array"], ots), judge=judge)
-    # bin completion on named items (since fix F15: the search runs on the values, the names are put back): not modelled, judged by the verified checker
+    # bin completion on named items (since fix F15: the search runs on the values, the names are put back: BC.binCompletionNamed)
     c.corr("random-bc-named", C.random_pack_cases(rng, ["bin_completion"], c.n(150, 1500), nmax=c.n(10, 12)),
            combos_of(["dict_str", "dict_int", "names_valueof", "array_valueof"], ots), judge=judge)
     # exactly representable fractions (dyadic): the integer model applies after scaling by a power of two (C18 scale theorem)
@@ -479,7 +479,7 @@ def C04(c):
     for e in rnd:
         e["vals"] = [v for v in e["vals"] if v >= 1] or [1]
     c.corr("random", rnd, combos_of(["list"], ots), judge=judge)
-    # named input (since fix F15 the search runs on the values and the names are put back): not modelled, judged by the verified optimum
+    # named input (since fix F15 the search runs on the values and the names are put back: BC.binCompletionNamed)
     c.corr("random-named", rnd[: c.n(250, 2500)], combos_of(["dict_str", "dict_int", "names_valueof", "array_valueof"], ots), judge=judge)
     # the search itself, not only its answer: the sequence of find_bin_completions(x, items, binsize) calls the implementation makes
     # (recorded by wrapping the function from outside) against the trace of the model (BC.binCompletionT; BCTraceProofs.binCompletionT_fst:
